@@ -154,6 +154,7 @@ def frame_alphabet() -> List[Tuple[int, bytes]]:
         (RX, bytes([0x30, 0x00, 0x00])),  # FC continue
         (RX, b""),  # empty frame
         (RX, bytes([0x10])),  # truncated FF
+        (RX, bytes([0x10, 20])),  # FF truncated behind its length field
         (RX, bytes([0x21])),  # CF without data
         (RX, bytes([0x40, 0x01])),  # unknown frame type
         (RX, bytes([0x00])),  # SF length 0
@@ -231,7 +232,15 @@ def base_streams() -> Dict[str, List[Tuple[int, bytes]]]:
     b = [(RX2, f) for f in segment(pattern(15, 6), 8, None)]
     s["2ids-interleaved"] = [a[0], b[0], a[1], b[1], a[2], b[2]]
     s["SF,FF+2CF"] = [(RX, f) for f in segment(pattern(3, 7), 8, None) + segment(pattern(16, 8), 8, None)]
+    s["FF+2CF,FF+2CF"] = [(RX, f) for f in segment(pattern(17, 9), 8, None) + segment(pattern(18, 10), 8, 0x55)]
     return s
+
+
+def base_payloads() -> Dict[str, Dict[int, List[bytes]]]:
+    """What each base stream transfers per ID (same arguments as in base_streams)."""
+    return {"SF": {RX: [pattern(5)]}, "FF+2CF": {RX: [pattern(18, 3)]}, "FF+17CF": {RX: [pattern(6 + 7 * 16 + 3, 4)]},
+            "2ids-interleaved": {RX: [pattern(18, 5)], RX2: [pattern(15, 6)]}, "SF,FF+2CF": {RX: [pattern(3, 7), pattern(16, 8)]},
+            "FF+2CF,FF+2CF": {RX: [pattern(17, 9), pattern(18, 10)]}}
 
 
 def fault_menu(stream: List[Tuple[int, bytes]], pos: int) -> List[Tuple[str, List[Tuple[int, bytes]]]]:
@@ -300,10 +309,35 @@ def run_stream(frames: List[Tuple[int, bytes]], variant: str = "plain") -> Tuple
     return probs, r
 
 
+def text_path(frames: List[Tuple[int, bytes]], r: Run) -> List[Tuple[str, str]]:
+    """The same (faulty) frame stream as candump text in both formats through read_telegrams(): reading never raises
+    and reports what the frame API reported."""
+    import io
+
+    from odxtools.isotp_state_machine import IsoTpStateMachine
+
+    from checks.c12 import drive_async, render
+    out: List[Tuple[str, str]] = []
+    for fmt in ("normal", "log"):
+        text = render(frames, fmt)
+        try:
+            with contextlib.redirect_stderr(_SINK):
+                got = [(i, bytes(t)) for i, t in drive_async(IsoTpStateMachine(list(r.ids)).read_telegrams(io.StringIO(text)))]
+            _SINK.seek(0)
+            _SINK.truncate()
+        except Exception as e:  # noqa
+            out.append((f"C13/text-{fmt}/raises/{type(e).__name__}", f"{type(e).__name__}: {e}"))
+            continue
+        if got != r.outputs:
+            out.append((f"C13/text-{fmt}/differs-from-frame-api", f"text: {[fh(t) for _, t in got]} frames: {[fh(t) for _, t in r.outputs]}"))
+    return out
+
+
 def fault_unit(unit: Tuple[str, int]) -> Part:
     name, nfaults, shard, nshards, variant = unit
     part = Part()
     stream = base_streams()[name]
+    payloads = base_payloads()[name]
     combos: List[List[Tuple[int, str]]] = []
     if nfaults == 0:
         combos = [[]]
@@ -325,6 +359,23 @@ def fault_unit(unit: Tuple[str, int]) -> Part:
         probs, r = run_stream(frames, variant)
         part.add("nontrivial", digest((name, [f for _, f in faults], [fh(t) for _, t in r.outputs])))
         part.add("outcomes", digest([fh(t) for _, t in r.outputs]))
+        if not probs:
+            # an ID none of whose frames is touched by a fault gets exactly its telegrams
+            touched = set()
+            for pos, f in faults:
+                touched.add(stream[pos][0])
+                if f == "swap":
+                    touched.add(stream[pos + 1][0])
+            for cid, want in payloads.items():
+                if cid in touched:
+                    continue
+                part.count("untouched_id_completeness_checked")
+                got_c = [t for i, t in r.outputs if i == cid]
+                if got_c != want:
+                    probs.append((f"C13/untouched-id-incomplete/{variant}",
+                                  f"id {cid:#x} (no fault on its frames) reported {[fh(t) for t in got_c]}, transferred {[fh(t) for t in want]}"))
+        if variant == "plain" and not probs and (nfaults <= 1 or len(stream) <= 10):
+            probs = text_path(frames, r)
         for key, detail in probs:
             part.violation(key, {"mode": "stream", "variant": variant, "base": name, "faults": [list(f) for f in faults],
                                  "frames": [[c, fh(d)] for c, d in frames]}, detail)
@@ -374,6 +425,7 @@ def run(ctx: Ctx) -> None:
     ctx.counts["traces_validated_against_impl"] = ctx.counts["evaluations"]
     ctx.sample({"base": "FF+2CF", "frames": [fh(d) for _, d in streams["FF+2CF"]]})
     ctx.sample({"bfs_sequence": [fh(ALPHA[e][1]) for e in (2, 4, 4)]})
+    ctx.guard("untouched-ID completeness checked", ctx.counts.get("untouched_id_completeness_checked", 0) > 100)
     ctx.guard("fault executions > 500", ctx.counts.get("fault_executions", 0) > 500)
     ctx.guard("distinct outcomes > 20", len(ctx.sets.get("outcomes", ())) > 20)
     ctx.extra["bfs_fixpoint_reached_plain_decoder"] = ctx.counts.get("bfs_frontier_left_at_bound_plain", 0) == 0
@@ -399,5 +451,18 @@ def replay(case: Any) -> List[Tuple[str, str]]:
                 return out
         out.extend(run_probe(r, RX, "after-" + (frame_kind(last) if last is not None else "init")))
         return out
-    probs, _ = run_stream(frames, variant)
+    probs, r = run_stream(frames, variant)
+    if not probs and case.get("base") in base_payloads():
+        stream = base_streams()[case["base"]]
+        touched = set()
+        for pos, f in case.get("faults", []):
+            touched.add(stream[pos][0])
+            if f == "swap":
+                touched.add(stream[pos + 1][0])
+        for cid, want in base_payloads()[case["base"]].items():
+            got_c = [t for i, t in r.outputs if i == cid]
+            if cid not in touched and got_c != want:
+                probs.append((f"C13/untouched-id-incomplete/{variant}", f"id {cid:#x} reported {[fh(t) for t in got_c]}"))
+    if variant == "plain" and not probs:
+        probs = text_path(frames, r)
     return probs
